@@ -464,6 +464,14 @@ def gen_scaled(rng, g, cfg, name, nodes, prices):
     return a
 
 
+def _cmp_ge(x, y):
+    """x >= y for time stamps given as text or Timestamp (False when they cannot be compared: naive against aware)"""
+    try:
+        return pd.Timestamp(x) >= pd.Timestamp(y)
+    except TypeError:
+        return False
+
+
 def gen_structured(rng, g, cfg, name, nodes, prices):
     """StructuredAsset wrapping a small inner portfolio with one internal node and one or two external nodes"""
     ne = 2 if (len(nodes) >= 2 and rng.random() < cfg.get('p_struct_two_ext', 0.4)) else 1
@@ -502,6 +510,19 @@ def gen_structured(rng, g, cfg, name, nodes, prices):
             check_safe(pts[i], g.get('tz')); check_safe(pts[j], g.get('tz'))
             check_safe(pts[0] - step, g.get('tz')); check_safe(pts[T] + step, g.get('tz'))
             a['start'], a['end'] = fmt(pts[i]), fmt(pts[j])
+            for b in assets:
+                # (a wrapped asset living entirely outside the structure's life time would leave the inner portfolio without any variable:
+                #  the set-up then fails as listed under C14 - portfolio without variables; such windows are widened)
+                if b.get('start') and _cmp_ge(b['start'], pts[j]):
+                    b.pop('start')
+                if b.get('end') and _cmp_ge(pts[i], b['end']):
+                    b.pop('end')
+                if b.get('kind') == 'ScaledAsset':
+                    bb = b['base']
+                    if bb.get('start') and _cmp_ge(bb['start'], pts[j]):
+                        bb.pop('start')
+                    if bb.get('end') and _cmp_ge(pts[i], bb['end']):
+                        bb.pop('end')
             for b in assets:
                 if not b.get('start'):
                     b['start'] = fmt(rng.choice([pts[0] - step, pts[0], pts[rng.randint(0, T - 1)]]))
